@@ -1,8 +1,10 @@
 """C12 -- exceptions and tracebacks cross the process boundary intact.
 
 Tie: coq/Gen/K_einfo.v (guard of Traceback.__init__, DEFAULT_MAX_FRAMES expression, marker,
-pickling protocol of the stand-ins, MaybeEncodingError constructor / __reduce__) is regenerated
-from /repo on every run and proved equal to Model/EInfo.v; correspondence of the real
+pickling protocol of the stand-ins, MaybeEncodingError constructor / __reduce__, and HOW every attribute
+of the stand-ins _Frame/_Code/Traceback is read from the live object: literal, obj.attr, obj.ns.get(k),
+obj.ns[k], try/except KeyError) is regenerated from /repo on every run and proved equal to Model/EInfo.v
+(in particular: the reads never raise, whatever keys the live frame's namespaces lack); correspondence of the real
 ExceptionInfo / Traceback / MaybeEncodingError / Worker.workloop with the model on generated cases,
 plus the property monitor (Model.EInfo.monitor_case) evaluated on the implementation's
 observations."""
@@ -122,6 +124,21 @@ def to_coq(c, o):
     if k == 'mee':
         return '(CaseMee %s %s %s %s)' % (carg(c['a']), carg(c['b']), clist(o['args'], carg),
                                           cdict(o['attrs']))
+    if k == 'slots':
+        return '(CaseSlots %s %s %s)' % (ctab(o['frame']), ctab(o['code']), ctab(o['tb']))
+    if k == 'ns':
+        def cg(v):
+            return 'GNone' if v[0] == 'n' else '(%s (T_ %d))' % ('GStr' if v[0] == 's' else 'GOther', v[1])
+
+        def cns(d):
+            return sh(clist(d, lambda kv: '(T_ %d, %s)' % (kv[0], cg(kv[1]))))
+
+        def node(ctor):
+            return lambda n: sh('(%s (mk_fr (T_ %d) (T_ %d) %s) %s %s)' % (ctor, n[0], n[1], cz(n[2]),
+                                                                            cns(n[3]), cns(n[4])))
+        body = sh.wrap('CaseNS %s %s %s' % (cz(o['reclimit']), clist(o['live'], node('mk_lf')),
+                                             clist(o['chains'], lambda ch: sh(clist(ch, node('mk_sf'))))))
+        return '(let T_ := tab_get %s in %s)' % (ctab(o['strs']), body)
     # worker loop
     reqs = []
     for r in c['script']:
@@ -200,13 +217,30 @@ def nest_unp(rng, depth, k):
     return v
 
 
-def gen_pat(rng, n):
-    """run-length pattern of n call frames over the driver's functions f0..f3"""
+# the driver's FUNCS: 0-3 ordinary functions; 4-8 functions made by exec() in globals without / with odd
+# __name__ / __file__ / __loader__; 9 eval'd lambda + generator expression in fresh globals; 10 generator;
+# 11 class body; 12 sorted(key=) ; 13 map + lambda; 14 __traceback_hide__; 15 raise .. from; 16 raised while
+# handling another exception; 17 module-level code run by exec in fresh globals
+EXOTIC = list(range(4, 18))
+EXOTIC_NAMES = {4: 'exec-fresh-globals', 5: 'exec-name-only', 6: 'exec-file-only', 7: 'exec-None-values',
+                8: 'exec-non-str-values', 9: 'eval-lambda-genexpr', 10: 'generator', 11: 'class-body',
+                12: 'sorted-key', 13: 'map-lambda', 14: 'traceback-hide', 15: 'raise-from',
+                16: 'raise-in-handler', 17: 'exec-module-code'}
+
+
+def gen_pat(rng, n, exotic=0.3):
+    """run-length pattern of n call steps over the driver's functions (ordinary f0..f3, and with
+    probability `exotic` per run one of the unusual frame kinds, 1-3 steps)"""
     out = []
     left = n
+    use_exotic = rng.random() < 0.6
     while left > 0:
-        k = min(left, rng.choice([1, 1, 2, 3, 5, 20, 80]))
-        f = rng.choice([0, 0, 1, 2, 3])
+        if use_exotic and rng.random() < exotic:
+            k = min(left, rng.choice([1, 1, 2, 3]))
+            f = rng.choice(EXOTIC)
+        else:
+            k = min(left, rng.choice([1, 1, 2, 3, 5, 20, 80]))
+            f = rng.choice([0, 0, 1, 2, 3])
         if out and out[-1][0] == f:
             out[-1][1] += k
         else:
@@ -254,6 +288,20 @@ def gen_tb(rng):
 
 def gen_mee(rng):
     return dict(kind='mee', a=gen_arg(rng, 0, 0.1), b=gen_arg(rng, 0, 0.1))
+
+
+def gen_ns(rng):
+    """short chains dense in unusual frames; the stand-in frames' namespaces are compared too"""
+    n = rng.choice([1, 1, 2, 3, 4, 6, 9])
+    pat = []
+    for _ in range(n):
+        f = rng.choice(EXOTIC) if rng.random() < 0.75 else rng.choice([0, 1, 2, 3])
+        if pat and pat[-1][0] == f:
+            pat[-1][1] += 1
+        else:
+            pat.append([f, 1])
+    exc = gen_exc(rng)
+    return dict(kind='ns', exc=exc, pat=pat, rounds=rng.choice([0, 1, 2, 3]), proto=rng.choice([2, 4, 5]))
 
 
 def gen_wl(rng):
@@ -319,21 +367,43 @@ BOUNDARY = (
      ])
 
 
+# every unusual frame kind once as the raising frame and once in between, through ExceptionInfo
+# (rt, ns) and through the worker loop (wl: the next task must still be served)
+BOUNDARY_FRAMES = [dict(kind='slots')]
+for _f in EXOTIC:
+    BOUNDARY_FRAMES += [
+        dict(kind='ns', exc=['ValueError', [{'s': 'from exec'}, {'i': _f}], []], pat=[[_f, 1]], rounds=2, proto=4),
+        dict(kind='ns', exc=['KeyError', [{'i': _f}], [['detail', {'s': 'd'}]]], pat=[[0, 1], [_f, 2], [3, 1]],
+             rounds=1, proto=2),
+        dict(kind='rt', exc=['UserBase', [{'s': 'b'}], []], pat=[[1, 2], [_f, 1]], rounds=3, proto=5),
+        dict(kind='wl', maxtasks=None, env=[], script=[
+            dict(job=40 + _f, i=0, spec=dict(exc=['ValueError', [{'s': 'from exec'}, {'i': 7}], []],
+                                             pat=[[_f, 1]])),
+            dict(job=60 + _f, i=1, spec=dict(ret={'i': 32}))])]
+BOUNDARY_FRAMES += [
+    # a traceback longer than the limit made of exec'd frames only; all kinds in one chain
+    dict(kind='rt', exc=['RuntimeError', [{'s': 'deep exec'}], []], pat=[[4, 130]], rounds=2, proto=4),
+    dict(kind='ns', exc=['RuntimeError', [], []], pat=[[f, 1] for f in EXOTIC], rounds=2, proto=4),
+    dict(kind='tb', m=1, pat=[[4, 1], [9, 1], [5, 2]], rounds=1)]
+
+
 def gen_cases(rng, n, thorough):
     cases = []
     for _ in range(n):
         r = rng.random()
-        if r < 0.5:
+        if r < 0.42:
             cases.append(gen_rt(rng, thorough))
-        elif r < 0.65:
+        elif r < 0.54:
             cases.append(gen_tb(rng))
-        elif r < 0.75:
+        elif r < 0.62:
             cases.append(gen_mee(rng))
+        elif r < 0.77:
+            cases.append(gen_ns(rng))
         else:
             cases.append(gen_wl(rng))
     if thorough:
         cases += [dict(kind='rt', deep=True, rounds=r, proto=p) for r in (1, 5) for p in (2, 5)]
-    return cases + BOUNDARY
+    return cases + BOUNDARY + BOUNDARY_FRAMES
 
 
 # ---------------------------------------------------------------- judging
@@ -342,7 +412,8 @@ MON = {1: ('roundtrip-changes-type', 'exception type/class changed across a pick
        4: ('roundtrip-changes-tb', 'tb chain changed across a pickle round trip (or is not a prefix of the live chain)'),
        5: ('depth-bound-exceeded', 'tb chain longer than max_frames + 3'),
        6: ('ready-count', 'READY messages do not match the accepted tasks one to one'),
-       7: ('encoding-error-not-reported', 'a task whose result could not be sent was not answered by a MaybeEncodingError record')}
+       7: ('encoding-error-not-reported', 'a task whose result could not be sent was not answered by a MaybeEncodingError record'),
+       8: ('task-outcome-kills-worker', 'nothing in the environment failed, yet the worker loop died while reporting a task')}
 
 
 def short(c):
@@ -359,6 +430,32 @@ def judge(res, cases, outs, codes):
                                    detail=short(c) + ' :: ' + o['driver_error']))
             continue
         # monitors evaluated directly on the implementation's behaviour (Python side)
+        if o.get('build_error'):
+            # the task's exception is there, its live traceback is there -- and building the record
+            # raised: in a worker this escapes the handler, the worker dies, the caller gets
+            # WorkerLostError instead of the task's exception
+            res.alarms.append(dict(signature='C12:record-construction-raises',
+                                   what='building the %s from the live traceback raised %s on %s'
+                                        % ('Traceback stand-in' if c['kind'] == 'tb' else 'ExceptionInfo record',
+                                           o['build_error'], short(c)), replay=rep))
+            continue
+        if c['kind'] == 'ns':
+            if o['error']:
+                res.alarms.append(dict(signature='C12:record-not-picklable',
+                                       what='pickle round trip of the ExceptionInfo failed (%s) on %s' % (o['error'], short(c)),
+                                       replay=rep))
+            elif o['fmt']:
+                res.alarms.append(dict(signature='C12:traceback-object-unformattable',
+                                       what='traceback module cannot format the received tb: %s on %s' % (o['fmt'], short(c)),
+                                       replay=rep))
+            if not o['text_names_raiser']:
+                res.alarms.append(dict(signature='C12:text-does-not-name-raising-frame',
+                                       what='ExceptionInfo.traceback does not name the raising frame on %s' % short(c),
+                                       replay=rep))
+        if c['kind'] == 'wl' and o['ending'][0] == 'crash' and not c['env']:
+            res.alarms.append(dict(signature='C12:task-outcome-kills-worker',
+                                   what='no put was scripted to fail, yet Worker.workloop died with %s after %d messages on %s'
+                                        % (o['ending'][1], len(o['msgs']), short(c)), replay=rep))
         if c['kind'] == 'rt':
             if o['error']:
                 res.alarms.append(dict(signature='C12:record-not-picklable',
@@ -404,7 +501,8 @@ def judge(res, cases, outs, codes):
                                    what='type/args/text/tb chain or worker messages differ from the proved model on %s'
                                         % short(c), replay=rep))
         elif corr == 1:
-            res.broken.append(dict(kind='correspondence', name='EInfo model vs implementation (attributes/cause only)',
+            res.broken.append(dict(kind='correspondence',
+                                   name='EInfo model vs implementation (attributes/cause/stand-in namespaces/object attribute names only)',
                                    detail=short(c)))
 
 
@@ -422,7 +520,13 @@ def nontrivial(c, o):
         return len(o['views']) >= 2 and (o['live_len'] > 3 or bool(o['live_exc']['args']))
     if c['kind'] == 'wl':
         return any(r is not None for r in c['script'])
+    if c['kind'] == 'slots':
+        return False
     return True
+
+
+def renderable(o):
+    return 'driver_error' not in o and not o.get('build_error')
 
 
 def correspond(res, n):
@@ -433,11 +537,11 @@ def correspond(res, n):
     outs = []
     for part in core.chunks(cases, 400):
         outs += core.run_driver('einfo_driver.py', part, timeout=1200)
-    ok = [(c, o) for c, o in zip(cases, outs) if 'driver_error' not in o]
+    ok = [(c, o) for c, o in zip(cases, outs) if renderable(o)]
     terms = [to_coq(c, o) for c, o in ok]
     codes, _ = core.coq_eval('C12', HEADER, core.chunks(terms, 50))
     # map indices of the filtered list back
-    idxmap = [i for i, o in enumerate(outs) if 'driver_error' not in o]
+    idxmap = [i for i, o in enumerate(outs) if renderable(o)]
     codes = [(idxmap[i], code) for i, code in codes]
     judge(res, cases, outs, codes)
     # the expected finding D20 last, so that anything else is what gets reported first
@@ -445,8 +549,19 @@ def correspond(res, n):
 
     kinds, classes, depths, rounds, endings = {}, {}, {}, {}, {}
     trunc = unser = scripted = 0
+    frame_kinds, missing_keys = {}, {}
     for c, o in ok:
         kinds[c['kind']] = kinds.get(c['kind'], 0) + 1
+        pats = [c['pat']] if 'pat' in c else \
+            [r['spec']['pat'] for r in c.get('script', []) if r and 'pat' in r['spec']]
+        for f in {f for p in pats for f, _ in p if f in EXOTIC_NAMES}:
+            frame_kinds[EXOTIC_NAMES[f]] = frame_kinds.get(EXOTIC_NAMES[f], 0) + 1
+        if c['kind'] == 'ns':
+            for node in o['live']:
+                have = {o['strs'][kv[0]] for kv in node[3]}
+                for key in ('__name__', '__file__', '__loader__'):
+                    if key not in have:
+                        missing_keys[key] = missing_keys.get(key, 0) + 1
         if c['kind'] == 'rt':
             nm = o['live_exc']['cls'].split('.')[-1]
             classes[nm] = classes.get(nm, 0) + 1
@@ -466,13 +581,18 @@ def correspond(res, n):
                                      tb_len=sum(x[3] for x in o['views'][-1]['tb'])))
                for c, o in ok if c['kind'] == 'rt' and o['live_len'] > 127][:1]
     res.add_cov(evaluations=len(cases), distinct=distinct, traces=len(ok), samples=sample,
-                rule='corpus, then seeded random cases of four kinds (rt: exception class x args x attrs x real '
+                rule='corpus, then seeded random cases of five kinds (rt: exception class x args x attrs x real '
                      'call-chain pattern x 1-5 pickle round trips x protocol; tb: Traceback(max_frames=m); '
                      'mee: MaybeEncodingError(a,b); wl: Worker.workloop over a scripted request list with a '
-                     'really-pickling outq and scripted put failures), then enumerated boundary cases '
-                     '(live depth limit+1..limit+4, base exceptions, RecursionError, D20 witness); non-trivial = '
-                     'rt with >= 1 round trip and (args or more than 3 frames), wl with >= 1 task, every tb/mee; '
-                     'distinct by canonical JSON',
+                     'really-pickling outq and scripted put failures; ns: short chains dense in unusual frames, '
+                     'live and stand-in frame namespaces observed), the call chains running over ordinary functions '
+                     'and 14 unusual frame kinds (exec/eval in fresh or odd globals, lambda, generator expression, '
+                     'generator, class body, under sorted(key=)/map, __traceback_hide__, chained exceptions), then '
+                     'enumerated boundary cases (live depth limit+1..limit+4, base exceptions, RecursionError, D20 '
+                     'witness; every unusual frame kind as raising frame and in between, through ExceptionInfo and '
+                     'through the worker loop); non-trivial = rt with >= 1 round trip and (args or more than 3 '
+                     'frames), wl with >= 1 task, every tb/mee/ns; distinct by canonical JSON',
+                unusual_frame_kinds=frame_kinds, live_frames_without_key=missing_keys,
                 case_kinds=kinds, exception_classes=classes, live_depth_histogram=depths,
                 roundtrips_histogram=rounds, truncated_tracebacks=trunc,
                 worker_endings=endings, worker_unserialisable_results=unser,
@@ -487,6 +607,12 @@ def run(res):
     correspond(res, n)
     res.assumptions += [
         'pickle and the traceback module are trusted; the traceback text is an oracle of the model',
+        'a live frame is (co_filename, co_name, tb_lineno) + its f_globals / f_locals as arbitrary dicts (any key may be '
+        'missing; values str / None / other); real frame, code and traceback objects have the attributes listed in '
+        'Model.EInfo.frame_slots / code_slots / tb_slots (validated against dir() of real objects on every run); the '
+        'stand-in constructors are the reads matched statement by statement by the translator (any other statement '
+        'shape is a translator error); namespace values of the stand-in that do not pickle make the record '
+        'unpicklable (outside "picklable")',
         'repr() of anything but str/int/None/bool/tuple/list is an oracle; str code points ASCII (a few printable non-ASCII are exercised)',
         'exception classes whose constructor does not rebuild the object from .args (the statement says "picklable") are outside',
         'the worker is run in-process with synq=None and a scripted wait_for_job; put failures other than pickling are scripted by call index',
@@ -508,6 +634,11 @@ def replay(path):
     print('implementation now:', json.dumps(slim(out))[:6000])
     if 'driver_error' in out:
         return 1
+    if out.get('build_error'):
+        print('building the record from the live traceback raised: %s' % out['build_error'])
+        return 1
+    if c['kind'] == 'wl' and out['ending'][0] == 'crash' and not c['env']:
+        print('Worker.workloop died with %s although no put was scripted to fail' % out['ending'][1])
     codes, _ = core.coq_eval('C12r', HEADER, [[to_coq(c, out)]])
     if not codes:
         print('model agrees, property monitor silent')
